@@ -4,6 +4,7 @@ package harness
 // Oracle: invariant — Validate(p) == nil and ApplyPatches succeeds  =>  publicKey and service members unchanged.
 
 import (
+	"fmt"
 	"strings"
 	"testing"
 
@@ -260,5 +261,75 @@ func FuzzC11(f *testing.F) {
 		if after := protectedCanon(got); after != before {
 			t.Fatalf("C11 validated ietf-json-patch changed keys/services\n doc=%s\n patch=%s\n before=%s\n after= %s", refJCS(doc), ops, before, after)
 		}
+	})
+}
+
+// TestC11_Interleaved: keys and services are changed only by the dedicated actions, also when validated ietf-json-patches
+// stand before, between and behind them in one list: the keys and services of the result are those of the dedicated
+// patches applied alone (metamorphic relation: removing the ietf patches from the list changes nothing about them).
+func TestC11_Interleaved(t *testing.T) {
+	st := statsFor("C11")
+	composer := doccomposer.New()
+	check(t, "C11", 1500, func(t *rapid.T) {
+		doc := genDocument(t, false)
+		if _, ok := doc["publicKey"]; !ok {
+			doc["publicKey"] = genKeyList(t, 1, 3, false)
+		}
+		var all, dedicated []interface{}
+		var work = deepCopyValue(doc).(map[string]interface{})
+		nIetf, nDed := 0, 0
+		for i, n := 0, rapid.IntRange(2, 6).Draw(t, "npatches"); i < n; i++ {
+			if rapid.Bool().Draw(t, "ietf") {
+				p, _ := genValidIetfPatch(t, work, st)
+				if p == nil {
+					continue
+				}
+				next, err := refComposeOne(work, p)
+				if err != nil {
+					continue
+				}
+				work = next
+				all = append(all, p)
+				nIetf++
+				continue
+			}
+			action := rapid.SampledFrom([]string{"add-public-keys", "remove-public-keys", "add-services", "remove-services"}).Draw(t, "action")
+			p := genDedicatedPatch(t, action, work, false)
+			next, err := refComposeOne(work, p)
+			if err != nil {
+				continue
+			}
+			work = next
+			all = append(all, p)
+			dedicated = append(dedicated, p)
+			nDed++
+		}
+		if nIetf == 0 || nDed == 0 {
+			st.Exclude("list without both kinds of patch")
+			return
+		}
+		lall, err := libPatches(all)
+		if err != nil {
+			t.Fatalf("C11 harness: %v", err)
+		}
+		for _, lp := range lall {
+			if verr := patchvalidator.Validate(lp); verr != nil {
+				t.Fatalf("C11 harness: generated patch does not validate: %v", verr)
+			}
+		}
+		lded, _ := libPatches(dedicated)
+		journal("ApplyPatches", []byte(refJCS(map[string]interface{}{"doc": doc, "patches": all})))
+		gotAll, err := composer.ApplyPatches(libDoc(doc), lall)
+		if err != nil {
+			t.Fatalf("C11 list of validated, applicable patches failed: %v\n doc=%s\n patches=%s", err, refJCS(doc), refJCS(all))
+		}
+		gotDed, err := composer.ApplyPatches(libDoc(doc), lded)
+		if err != nil {
+			t.Fatalf("C11 dedicated patches alone failed: %v", err)
+		}
+		if a, d := protectedCanon(gotAll), protectedCanon(gotDed); a != d {
+			t.Fatalf("C11 keys/services differ when validated ietf-json-patches stand between the dedicated patches\n doc=%s\n patches=%s\n with the ietf patches    %s\n dedicated patches alone  %s", refJCS(doc), refJCS(all), a, d)
+		}
+		st.Case(nIetf >= 2, "interleaved|"+refJCS(doc)+refJCS(all), "interleaved", fmt.Sprintf("interleaved-ietf-%d-dedicated-%d", nIetf, nDed))
 	})
 }
